@@ -453,6 +453,14 @@ class Interp(ExprMixin):
     def _threads_accumulator(self, f_node, st):
         """True when `f_node` is `lambda acc, x: g(..., acc, ...)` and g returns, on every path, the very parameter the
         accumulator is passed for (never rebinding it)"""
+        if isinstance(f_node, ast.Name) and f_node.id in st.env:
+            # a nested `def step(acc, x): return g(x, acc)` passed by name
+            cv = st.env[f_node.id]
+            fi_ = cv.value[1] if isinstance(cv, Const) and isinstance(cv.value, tuple) and cv.value[0] == 'closure' else None
+            body_ = [b for b in fi_.node.body if not (isinstance(b, ast.Expr) and isinstance(b.value, ast.Constant))] if fi_ is not None else []
+            if fi_ is not None and len(fi_.node.args.args) == 2 and len(body_) == 1 and isinstance(body_[0], ast.Return) \
+                    and isinstance(body_[0].value, ast.Call):
+                f_node = ast.Lambda(args=fi_.node.args, body=body_[0].value)
         if not (isinstance(f_node, ast.Lambda) and len(f_node.args.args) == 2 and isinstance(f_node.body, ast.Call)):
             return False
         acc = f_node.args.args[0].arg
